@@ -586,7 +586,10 @@ package bigbuff
 //@   props C16 C12
 //@   ensures nonnil : ret != nil
 //@   ensures values : ctx != nil ==> ctxvalues(ret) == ctxvalues(ctx)
+//@   # "already cancelled if any input already is": whatever error the done input reports
+//@   ensures already : (ctx != nil && old(cancelled(ctx))) || some(j, 0, len(others), others[j] != nil && old(cancelled(others[j]))) ==> cancelled(ret)
 //@   loop 0 invariant count : n >= 0 && icalls("context.WithCancel") == 0
+//@   loop 0 invariant live : (old(ctx) != nil ==> !old(cancelled(old(ctx)))) && all(j, 0, rangeindex + 1, others[j] != nil ==> !old(cancelled(others[j])))
 //@   loop 1 invariant hooks : heldnone() && cancel != nil && now(ctx) != nil && all(j, 0, len(stops), stops[j] != nil) && ctxvalues(now(ctx)) == ctxvalues(old(ctx)) || old(ctx) == nil
 //@   at-call context.WithCancel#0 precancelled : lasterr(other) != nil && arg0 == ctx__0
 //@   at-call context.WithCancel#1 derived : arg0 == now(ctx)
